@@ -3,6 +3,7 @@ package main
 import (
 	"bufio"
 	"bytes"
+	"context"
 	"encoding/json"
 	"flag"
 	"fmt"
@@ -671,6 +672,54 @@ func runChildPlan(plan []string, tpls []template, repo string, caseTimeout int) 
 			if strings.HasPrefix(l, "{") && json.Unmarshal([]byte(l), &r2) == nil && r2.Idx == i && r2.PeakKiB > 0 {
 				peaks[i] = r2.PeakKiB
 			}
+		}
+	}
+	// third pass: a time above 8 s (or a watchdog kill) is measured again, alone in a fresh process; the smaller of the two
+	// charged times counts.  A decode that really does not terminate exceeds the limit both times; a burst of other work on
+	// the machine between two calibrations does not strike twice.
+	for i := 1; i <= len(cases); i++ {
+		cr := results[i]
+		if cr.Idx == 0 || cases[i-1].big || !(cr.Outcome == "timeout" || ((cr.Outcome == "ok" || cr.Outcome == "error") && cr.Us > 8_000_000)) {
+			continue
+		}
+		ctx, cancel := context.WithTimeout(context.Background(), time.Duration(5*caseTimeout)*time.Second)
+		cmd := exec.CommandContext(ctx, self, "robust-child", "--repo", repo, "--only", fmt.Sprint(i))
+		cmd.Env = append(os.Environ(), "GOMAXPROCS=1")
+		cmd.Stdin = strings.NewReader(strings.Join(plan, "\n") + "\n")
+		outb, err := cmd.Output()
+		cancel()
+		if err != nil {
+			continue // killed again (or crashed): the first measurement stands
+		}
+		var cals []int64
+		var r2 caseResult
+		got := false
+		for _, l := range strings.Split(string(outb), "\n") {
+			if strings.HasPrefix(l, "C ") {
+				var c int64
+				fmt.Sscanf(l, "C %d", &c)
+				cals = append(cals, c)
+			} else if strings.HasPrefix(l, "{") && json.Unmarshal([]byte(l), &r2) == nil && r2.Idx == i {
+				got = true
+			}
+		}
+		if !got {
+			continue
+		}
+		var cb, ca int64
+		if len(cals) > 0 {
+			cb = cals[0]
+			ca = cals[len(cals)-1]
+		}
+		us2 := int64(float64(r2.Us) * chargedScale(cb, ca))
+		if us2 < cr.Us || cr.Outcome == "timeout" {
+			if cr.Outcome == "timeout" && us2 <= int64(caseTimeout)*1_000_000 {
+				cr.Outcome, cr.Site, cr.Class, cr.Alloc = r2.Outcome, r2.Site, r2.Class, r2.Alloc
+			}
+			if us2 < cr.Us || cr.Outcome != "timeout" {
+				cr.Us = us2
+			}
+			results[i] = cr
 		}
 	}
 	// aggregate: one event per (plan line, outcome) for the benign outcomes, one per case otherwise
